@@ -354,5 +354,3 @@ Fixpoint run_ends_from (s : state) (ops : list op) : list (Z * Z) :=
   | o :: r => let s' := fst (step s o) in (space s', layout_end s') :: run_ends_from s' r
   end.
 Definition run_ends (ops : list op) : list (Z * Z) := run_ends_from init ops.
-
-(* ASCII helper for examples: "A" -> [65] is written by hand in the proofs file *)
